@@ -27,17 +27,28 @@ def trace_pass(ctx):
 
 def conformance_pass(ctx, trace):
     """P_Conf: how many recorded reconciles are outcomes the decision procedures of the model allow (measured, not convicting)."""
-    cfg = ("SPECIFICATION Spec\nCONSTANT TraceFile = \"%s\"\nCONSTANT KnownFindings = {}\nCONSTANT Notes = FALSE\n"
-           "PROPERTY P_Conf\nPOSTCONDITION ConfReport\nCHECK_DEADLOCK FALSE\n" % trace)
-    try:
-        rc, out, dt, d = ctx.tlc("Trace.tla", cfg, "conformance", workers=1, timeout=600)
-    except vcheck.MachineryError as ex:
-        ctx.cov["conformance"] = {"error": str(ex)[:200]}
-        return
-    m = re.search(r'<<"CONF", (\d+), (\d+)>>', out)
-    drift = re.findall(r'<<"DRIFT", (\d+), "(\w+)">>', out)
-    if m:
-        tot, okn = int(m.group(1)), int(m.group(2))
+    tot = okn = 0
+    drift, dt = [], 0.0
+    got = False
+    for ch in ctx.split_trace(trace):
+        cfg = ("SPECIFICATION Spec\nCONSTANT TraceFile = \"%s\"\nCONSTANT KnownFindings = {}\nCONSTANT Notes = FALSE\n"
+               "PROPERTY P_Conf\nPOSTCONDITION ConfReport\nCHECK_DEADLOCK FALSE\n" % ch)
+        try:
+            rc, out, dt1, d = ctx.tlc("Trace.tla", cfg, "conformance", workers=1, timeout=900)
+        except vcheck.MachineryError as ex:
+            ctx.cov["conformance"] = {"error": str(ex)[:200]}
+            return
+        finally:
+            if ch != trace and os.path.exists(ch):
+                os.remove(ch)
+        m = re.search(r'<<"CONF", (\d+), (\d+)>>', out)
+        if m:
+            got = True
+            tot += int(m.group(1))
+            okn += int(m.group(2))
+        drift += re.findall(r'<<"DRIFT", (\d+), "(\w+)">>', out)
+        dt += dt1
+    if got:
         prev = ctx.cov.get("conformance", {"reconciles_compared": 0, "conformant": 0, "drift_lines": [], "wall_s": 0})
         ctx.cov["conformance"] = {"reconciles_compared": prev.get("reconciles_compared", 0) + tot, "conformant": prev.get("conformant", 0) + okn,
                                   "drift_lines": prev.get("drift_lines", []) + [int(x[0]) for x in drift[:20]], "wall_s": round(prev.get("wall_s", 0) + dt, 1),
